@@ -6,7 +6,8 @@ CHECK = {'pkgs': ['tbls'],
  'level': 'exploration',
  'engine': 'enumx',
  'technique': 'exhaustive small-scope enumeration of (n,t) configurations, share subsets and single substitutions (foreign share, sibling share, '
-              'wrong index, other message, too few partials) against the real tbls/herumi implementation',
+              'wrong index, other message, too few partials) against the real tbls/herumi implementation, plus the history shape "verify under A, verify under k other '
+              'distinct keys, verify under A again" for every k up to K in one process',
  'claim': 'for n in 2..7 (quick: 2..5), every 2<=t<=n, 6 secrets (1, 2, r-1, two fixed 32-byte patterns, one GenerateInsecureKey value), 3 messages '
           '(empty, 32 B, 200 B) and both splitters (production ThresholdSplit with fresh random coefficients, ThresholdSplitInsecure with a seeded '
           'reader): EVERY subset S of the shares with |S|>=t gives RecoverSecret(S)=secret, RecoverPubkey(public shares of S)='
@@ -16,7 +17,10 @@ CHECK = {'pkgs': ['tbls'],
           'the subset and under n+1, the partial made over each other message -- and EVERY subset with |S|<t (incl. the empty one) either is '
           'refused by ThresholdAggregate or does not Verify under the group key (mixed-message aggregates: for neither message). Thorough '
           'additionally n in 8..10: all subsets of size t and n (positive), all subsets of size t-1 and the empty set (too few), substitutions on '
-          'every size-t subset for n=8 and on the first-t and last-t subsets for n=9,10',
+          'every size-t subset for n=8 and on the first-t and last-t subsets for n=9,10; the quick tier also runs n=10 (the first two-digit share index) with '
+          't in {2,7,10} on two secrets. History dimension (the functions are pure; a process-wide cache of bounded capacity shows a defect only beyond its '
+          'capacity): after each of K=10000 (thorough 70000) further distinct keys has been verified, the genuine signature of the first key still '
+          'verifies, the newest key\'s signature over the same message is refused under the first key and vice versa, and the newest key\'s own verifies',
  'trusted': 'the oracle is black-box on the exported tbls functions (byte equality of their outputs, nil/non-nil of Verify); Sign(secret,msg) and '
             'SecretToPublicKey(secret) of the undivided key are taken as the reference values; substitutions whose substituted share happens to '
             'equal the genuine one (probability ~2^-255, or a degenerate split) are skipped and counted, a refused split/secret is noted, not alarmed; '
